@@ -1299,8 +1299,17 @@ namespace
     value append_array_array(runtime& runtime, value::cref left, value::cref right)
     {
         auto arr = left.data<d_array>();
-        auto r = right.data<d_array>();
-        arr->insert(arr->end(), r->begin(), r->end());
+        // Copy the elements first: the right array may be the left one, and insert must not read what it moves
+        std::vector<value> elements = right.data<d_array>()->value();
+        for (auto& it : elements)
+        {
+            if (sqf::types::reaches_container(it, arr.get()))
+            {
+                runtime.__logmsg(err::ArrayRecursion(runtime.context_active().current_frame().diag_info_from_position()));
+                return {};
+            }
+        }
+        arr->insert(arr->end(), elements.begin(), elements.end());
         return {};
     }
     value arrayintersect_array_array(runtime& runtime, value::cref left, value::cref right)
